@@ -73,6 +73,17 @@ def main():
         if os.path.exists(s) and os.path.isdir(os.path.join(REPO, rel)):
             replace[os.path.join(REPO, rel, "zz_verif_export.go")] = s
 
+    # 5. go build -overlay does not notice a changed //go:embed file of a package
+    #    that has overlaid files (measured: the stale compiled package is reused).
+    #    A generated file carrying the hash of the embedded files changes the
+    #    package's action ID whenever they change.
+    import hashlib
+    emb = os.path.join(REPO, "omniwitness", "logs.yaml")
+    if os.path.exists(emb):
+        h = hashlib.sha256(open(emb, "rb").read()).hexdigest()
+        src = "package omniwitness\n\n// VerifEmbedHash is the hash of logs.yaml at overlay generation time.\nconst VerifEmbedHash = \"%s\"\n" % h
+        replace[os.path.join(REPO, "omniwitness", "zz_verif_embedhash.go")] = write("omniwitness_embedhash.go", src)
+
     ov = os.path.join(OUT, "overlay.json")
     with open(ov, "w") as f:
         json.dump({"Replace": replace}, f, indent=1)
